@@ -3660,13 +3660,19 @@ impl Context {
             merge_block: 0,
         });
 
+        // The cells of the arms are laid out one after the other; each arm restores the state
+        // position it started from.
+        let mut arm_offset = self.get_ctxdata().next_state_offset.take().unwrap_or(0);
+
         // Generate blocks for each literal case
         let (case_blocks, case_results, case_states): (Vec<_>, Vec<_>, Vec<_>) = literal_arms
             .iter()
             .map(|(arm, lit_val)| {
                 self.add_new_basicblock();
                 let block_idx = self.get_ctxdata().current_bb as u64;
-                let (result_val, _, arm_states) = self.eval_expr(arm.body);
+                let (result_val, _, arm_states) =
+                    self.eval_alternative(arm_offset, |ctx| ctx.eval_expr(arm.body));
+                arm_offset += Self::states_size(&arm_states);
                 ((*lit_val, block_idx), result_val, arm_states)
             })
             .fold(
@@ -3687,7 +3693,9 @@ impl Context {
             // Wildcard pattern - just evaluate the body
             self.add_new_basicblock();
             let block_idx = self.get_ctxdata().current_bb as u64;
-            let (result_val, _, arm_states) = self.eval_expr(arm.body);
+            let (result_val, _, arm_states) =
+                self.eval_alternative(arm_offset, |ctx| ctx.eval_expr(arm.body));
+            arm_offset += Self::states_size(&arm_states);
             all_states.extend(arm_states);
             case_results.push(result_val);
             Some(block_idx)
@@ -3695,6 +3703,7 @@ impl Context {
             // Exhaustive match - no default block needed
             None
         };
+        self.get_ctxdata().next_state_offset = (arm_offset > 0).then_some(arm_offset);
 
         // Generate merge block with PhiSwitch
         self.add_new_basicblock();
